@@ -517,7 +517,7 @@ ADAPTORS = {
     "futures::StreamExt::filter": {"f": 1, "params": {2: [(0, ("$item",))]}, "result": [(0, ("$item",), ("$item",))]},
     "futures::StreamExt::inspect": {"f": 1, "params": {2: [(0, ("$item",))]}, "result": [(0, ("$item",), ("$item",))]},
     "futures::StreamExt::then": {"f": 1, "params": {2: [(0, ("$item",))]}, "result": [("ret", ("$item",), ("$out",))]},
-    "futures::StreamExt::collect": {"f": None, "params": {}, "result": [(0, ("$out",), ("$item",))]},
+    "futures::StreamExt::collect": {"f": None, "params": {}, "result": [(0, ("$out", "$item"), ("$item",))]},
     "futures::stream::poll_fn": {"f": 0, "params": {2: []}, "result": [("ret", ("$item",), ())]},
     "futures::future::poll_fn": {"f": 0, "params": {2: []}, "result": [("ret", ("$out",), ())]},
     "std::future::poll_fn": {"f": 0, "params": {2: []}, "result": [("ret", ("$out",), ())]},
@@ -553,7 +553,8 @@ ADAPTORS = {
                                       "result": [("ret", (), ()), (1, (), ())]},
     "std::iter::Iterator::zip": {"f": None, "params": {}, "result": [(0, ("$item", 0), ("$item",)), (1, ("$item", 1), ("$item",))]},
     "std::iter::Iterator::enumerate": {"f": None, "params": {}, "result": [(0, ("$item", 1), ("$item",))]},
-    "std::iter::Iterator::collect": {"f": None, "params": {}, "result": [(0, (), ("$item",)), (0, ("$item",), ("$item",))]},
+    # collect: the collection itself is an allocation site; its items are the iterator's items
+    "std::iter::Iterator::collect": {"f": None, "params": {}, "result": [(0, ("$item",), ("$item",))]},
     "std::iter::from_fn": {"f": 0, "params": {}, "result": [("ret", ("$item",), ())]},
     "std::slice::<impl [T]>::sort_by": {"f": 1, "params": {2: [(0, ("$item",))], 3: [(0, ("$item",))]}, "result": []},
     "std::slice::<impl [T]>::sort_by_key": {"f": 1, "params": {2: [(0, ("$item",))]}, "result": []},
